@@ -18,9 +18,10 @@ def extract():
     f = {}
     srv = test_mod_cut(strip(read("src/websocket_server.rs")))
     body = fn_body(srv, "spawn_off_reader")
-    acq = re.findall(r"\.(try_acquire_owned|try_acquire|acquire_owned|acquire|acquire_many|acquire_many_owned)\(", body)
-    if not acq: raise ExtractError("spawn_off_reader: no permit acquisition found")
-    f["tryAcquire"] = all(a.startswith("try_") for a in acq)
+    acq = re.findall(r"\.(\w*acquire\w*)\(", body)
+    # exactly the one non-blocking single-permit acquisition; anything else (none, several, `_many`, a
+    # blocking one, available_permits() peeking) is not what the theorems are about
+    f["tryAcquire"] = acq == ["try_acquire_owned"] and "available_permits" not in body and "add_permits" not in body and "forget" not in body
     m = re.search(r"try_acquire_owned\(\)\s*\{\s*Ok\(permit\)\s*=>\s*Some\(permit\),\s*Err\(_\)\s*=>", body)
     if not m:
         # acquisition is not the recognised non-blocking match: the saturation branch cannot be located
@@ -43,7 +44,7 @@ def extract():
     if not sp: raise ExtractError("spawn_off_reader: spawn_blocking closure")
     clo, _ = block_after(body, sp.end())
     st = statements(clo)
-    f["permitHeldForRun"] = bool(st) and st[0] == "let _permit = permit;"
+    f["permitHeldForRun"] = bool(st) and bool(re.fullmatch(r"let _[A-Za-z]\w* = permit;", st[0])) and "drop(_" not in clo and "forget" not in clo
     cu = re.search(r"catch_unwind\(std::panic::AssertUnwindSafe\(\|\|\s*\{\s*dispatch\(handler\.as_ref\(\), &request, &ctx, notify\)\s*\}\)\)", clo)
     f["panicCaught"] = bool(cu)
     pm = re.search(r"Err\(_\)\s*=>", clo)
